@@ -37,6 +37,14 @@ class Calls:
                 return it.ev(e.args[0])
             finally:
                 it.heap, it.ghost = cur
+        if isinstance(e.func, ast.Name) and e.func.id == 'implies' and len(e.args) == 2 and it.mode == 'spec' \
+                and 'implies' not in it.env:
+            # implication is lazy in its conclusion: implies(a, b) == (not a) or b
+            node = ast.BoolOp(op=ast.Or(), values=[ast.UnaryOp(op=ast.Not(), operand=e.args[0]), e.args[1]])
+            ast.copy_location(node, e)
+            ast.fix_missing_locations(node)
+            r = it.ev(node)
+            return SV(V.BoolV(vals.truthy(r.t))) if isinstance(r, SV) else r
         f = it.ev(e.func)
         args, kwargs = self.eval_args(it, e)
         return self.call_value(it, f, args, kwargs, e)
@@ -295,6 +303,11 @@ class Calls:
 
     def object_attr(self, it, obj, cls, name, node):
         w = self.world
+        if vals.tag_of(it.refine(obj.t)) != 'ObjV':
+            # a value that may be None (or any non-object): attribute access raises AttributeError
+            if not it.branch(V.is_ObjV(obj.t), 'attribute of possibly-None value'):
+                it.raise_('AttributeError')
+            obj = SV(it.refine(obj.t), obj.ty, obj.src)
         fty = w.field_type(cls, name)
         if fty is not None:
             if fty.startswith('const:'):
@@ -361,6 +374,7 @@ class Calls:
 
 def _static(fty):
     """schema field type -> static type tag carried by SV"""
+    fty = fty.replace('|none', '')
     if fty in ('int', 'float', 'bool', 'str', 'bytes', 'number', 'any', 'tuple', 'list', 'dict', 'set', 'none'):
         return None
     return fty
@@ -387,7 +401,7 @@ class Builtins:
              'implies', 'num_eq', 'same_num', 'is_ascii', 'py_eq', 'is_obj', 'forall_items', 'is_seq', 'keys_of',
              'is_canonical_b64', 'b64_text', 'is_instance_of', 'class_of', 'is_whole', 'realnum', 'is_ok_float',
              'fresh_from', 'is_fresh', 'same_object', 'is_valid_b64', 'b64_bytes', 'mk_enum',
-             'seq_eq', 'is_wire', 'in_universe', 'on_grid', 'same_value', 'enum_owned', 'forall_int', 'forall_str', 'exists_int', 'as_float', 'enum_has_name', 'enum_code', 'enum_has_code', 'enum_name'}
+             'seq_eq', 'is_wire', 'in_universe', 'on_grid', 'same_value', 'enum_owned', 'forall_int', 'forall_str', 'exists_int', 'has_dyn', 'is_prefix', 'unchanged', 'as_float', 'enum_has_name', 'enum_code', 'enum_has_code', 'enum_name'}
 
     def call(self, it, name, args, kwargs, node):
         m = getattr(self, 'bi_' + name, None)
@@ -475,6 +489,25 @@ class Builtins:
 
     def bi_exists_int(self, it, a, k, n):
         return self._forall(it, a[0], IntS, V.IntV, exists=True)
+
+    def bi_unchanged(self, it, a, k, n):
+        """frame: the heap field has the same content for every object as at entry (postconditions only)"""
+        fname = self.world.dynattr.const_name(a[0])
+        old = it.env.get('old!heap')
+        if fname is None or old is None:
+            raise Unsupported('unchanged() needs a constant field name inside a postcondition')
+        cur = it.heap_arr(fname)
+        before = old[0].get(fname, z3.Const(f'H0!{fname}', z3.ArraySort(IntS, Val)))
+        return SV(V.BoolV(cur == before))
+
+    def bi_has_dyn(self, it, a, k, n):
+        """the object has an attribute of this (computed) name"""
+        d = self.world.dynattr
+        sname = V.s(a[1].t)
+        return SV(V.BoolV(z3.Select(z3.Select(d.has_arr(it), V.oid(a[0].t)), sname)))
+
+    def bi_is_prefix(self, it, a, k, n):
+        return SV(V.BoolV(z3.PrefixOf(vals.seqitems(a[0].t), vals.seqitems(a[1].t))))
 
     def bi_enum_owned(self, it, a, k, n):
         """the member object belongs to this Enum object"""
